@@ -27,7 +27,7 @@ import (
 )
 
 const header = `From Coq Require Import NArith List String.
-From CSS Require Import Lib.Base Lib.Cases Lib.SymBits Lib.RegTypes Lib.RegOblig Lib.RegFresh Model.Registers Model.RegisterHeap Model.RegistersCases gen.FromSource_registers.
+From CSS Require Import Lib.Base Lib.Cases Lib.SymBits Lib.RegTypes Lib.RegOblig Lib.RegFresh Model.Registers Model.RegisterHeap Model.RegistersDec Model.RegistersCases gen.FromSource_registers.
 Import ListNotations.
 Open Scope N_scope.
 Open Scope string_scope.
@@ -341,6 +341,31 @@ func main() {
 		if ilen < txtAreaEnd() {
 			c.Count("read_txt_short_image")
 		}
+		// input distribution: why this length, how many registers came back, which error kinds
+		c.Count("read_txt_length:" + sp.why)
+		c.Count(fmt.Sprintf("read_txt_fill_class:%d", sp.class))
+		c.Count(fmt.Sprintf("read_txt_registers_returned:%02d", len(regs)))
+		neof, nunexp := 0, 0
+		for _, e := range errObs(rerr) {
+			switch {
+			case strings.HasSuffix(e, ", 0)"):
+				neof++
+			case strings.HasSuffix(e, ", 1)"):
+				nunexp++
+			default:
+				c.Count("read_txt_error_entry:other")
+			}
+		}
+		switch {
+		case rerr == nil:
+			c.Count("read_txt_error:nil")
+		case nunexp == 0:
+			c.Count("read_txt_error:only-EOF")
+		case neof == 0:
+			c.Count("read_txt_error:only-unexpected-EOF")
+		default:
+			c.Count("read_txt_error:EOF-and-unexpected-EOF")
+		}
 		// the property, register by register (every register whose extent lies inside the image)
 		if jb := judgeRead(img, regs, rerr); jb != "" {
 			bad = jb
@@ -358,8 +383,13 @@ func main() {
 
 	// ---- accessors (sessions, sessions.go, in between: heavy cases, spread over the shards) ----
 	undriven := 0
-	nextImg, nextBatch := 0, 0
+	nextImg, nextBatch, nextDec := 0, 0, 0
+	decCases := decoderCases(c) // decoders.go: CalculateRegisterFields on any table, pkg/tools, ReadMSRRegisters, Find
 	for ai, a := range sp.Accessors {
+		for nextDec*len(sp.Accessors) < (ai+1)*len(decCases) {
+			decCases[nextDec]()
+			nextDec++
+		}
 		// heavy cases (config-space images, sessions) are spread evenly over the light accessor cases
 		for nextImg*len(sp.Accessors) < (ai+1)*nimg {
 			readOne(nextImg)
@@ -371,6 +401,9 @@ func main() {
 		}
 		ps := patterns(c, a.Width, c.Scale(6, 200))
 		ps = append(extra[a.Name], ps...)
+		c.Count(fmt.Sprintf("accessor_width:%d", a.Width))
+		c.Count("accessor_spec_kind:" + a.Kind)
+		c.Count("accessor_package:" + strings.SplitN(a.Name, ".", 2)[0])
 		inCoq := c.Scale(40, 400)
 		reported := false
 		for i, r := range ps {
@@ -424,6 +457,10 @@ func main() {
 			var lits []string
 			for _, f := range fs {
 				lits = append(lits, fmt.Sprintf("(%s, %d, %d, %s)", gal.Str2(f.Name), f.BitOffset, f.BitSize, gal.U(fieldNum(f.Value))))
+			}
+			if i == 0 {
+				c.Count(fmt.Sprintf("fields_register_width:%d", w))
+				c.Count(fmt.Sprintf("fields_table_entries:%02d", len(fs)))
 			}
 			idx := -1
 			if i%2 == 0 || i < 8 {
@@ -495,6 +532,9 @@ func main() {
 	}
 	for ; nextBatch < sessionBatches; nextBatch++ {
 		sessions(c, sp, nextBatch)
+	}
+	for ; nextDec < len(decCases); nextDec++ {
+		decCases[nextDec]()
 	}
 
 	flushSessionFailures(c)
